@@ -377,3 +377,13 @@ Definition elab1 (r : reg) (d : rawdef) : res reg :=
       end
   end.
 Definition elab (ds : list rawdef) : res reg := foldM elab1 ds empty_reg.
+
+(** [_build_cache] resolves every name referenced by a definition, which lazily registers the
+    prefixed ones ([millimeter], [kilogram], …): they are part of a freshly built registry. *)
+Definition build_cache (r : reg) : reg :=
+  fold_left (λ r n,
+    match r_units r !! n with
+    | Some d => fold_left (λ r kv, if is_dim kv.1 then r else register r kv.1) (map_to_list (u_ref d)) r
+    | None => r
+    end) (r_unit_names r) r.
+Definition load (ds : list rawdef) : res reg := r ←r elab ds; Ok (build_cache r).
